@@ -246,6 +246,7 @@ def fieldTag (ty : String) : String :=
   | "any:struct" => "reflect"
   | "any:strs" => "array"
   | "any:err" => "str"
+  | "any:lvpanic" => "str"     -- a LogValuer whose LogValue panics: `Resolve` yields an error value ("LogValue panicked…")
   | t => t
 
 end ZapVerif.Slog
